@@ -407,6 +407,19 @@ fn replay(drv: &mut Drv, rep: &mut Report, case: &str) {
         if got != exp {
             rep.disagree(Disagreement { case: case.to_string(), got, expected: exp, class: "violation", obligation: "tie2: read_frame/reset_animation/read_image = Anim.run".into(), detail: "replayed".into() });
         }
+    } else if p[0] == "animunusual" || p[0] == "animembedded" {
+        // `animunusual <what> prefix=<n> at=<n> <filehex> <ops>` / `animembedded prefix=<n> at=<n> <filehex> <ops>`
+        let o = if p[0] == "animunusual" { 2 } else { 1 };
+        let prefix: usize = p[o].trim_start_matches("prefix=").parse().unwrap_or(0);
+        let at: u64 = p[o + 1].trim_start_matches("at=").parse().unwrap_or(u64::MAX);
+        let file = unhex(p[o + 2]);
+        let ops = p[o + 3];
+        let clean = run_ops(&file, ops, false);
+        let (got, _) = run_ops_unusual(&file, ops, prefix, at);
+        rep.case(case, true);
+        if got != clean {
+            rep.disagree(Disagreement { case: case.to_string(), got, expected: clean, class: "violation", obligation: "C06/C07: the successful calls do not depend on where the file starts in the reader nor on an earlier failed and repeated call".into(), detail: "replayed".into() });
+        }
     } else if p[0] == "animfault" {
         // `animfault at=<offset> <filehex> <ops>`
         let at: u64 = p[1].trim_start_matches("at=").parse().unwrap_or(0);
